@@ -5,3 +5,13 @@ use crate::e3::Baseline;
 pub fn baselines(_tier: Tier) -> Vec<Baseline> {
     vec![]
 }
+
+/// Extra layouts for the cut sweep of C11: (name, bytes).
+pub fn cut_layouts(_tier: Tier) -> Vec<(String, Vec<u8>)> {
+    vec![]
+}
+
+/// Extra files for the fault sweep of C10: (name, bytes).
+pub fn fault_files(_tier: Tier) -> Vec<(String, Vec<u8>)> {
+    vec![]
+}
